@@ -579,17 +579,28 @@ func runLeaseScenario(sc leaseScenario) (*leaseSys, bool) {
 			}
 			break
 		}
-		atomic.StoreInt32(&holder.fac.holdCreate, 1)
 		racq := make(chan error, 1)
-		go func() {
+		if sc.Phase == 1 {
+			// variant: the old renewal reaches the store only AFTER the same Locker holds again (it finds a record that
+			// is not the one it was sent for: ErrConflict).  That is no news about the new tenure: its record is kept
+			// and, at Unlock, removed like any other.
 			rctx, rcancel := context.WithTimeout(context.Background(), time.Duration(3*ttl)*time.Microsecond+2*time.Second)
-			defer rcancel()
 			racq <- holder.locker.LockWithCtx(rctx)
-		}()
-		time.Sleep(5 * time.Millisecond) // the acquisition is past its local phase, its Create is held back
-		close(holder.fac.casGo)          // the old renewal reaches the store (record gone: ErrNotExist)
-		time.Sleep(10 * time.Millisecond)
-		close(holder.fac.createGo)
+			rcancel()
+			close(holder.fac.casGo)
+			time.Sleep(10 * time.Millisecond)
+		} else {
+			atomic.StoreInt32(&holder.fac.holdCreate, 1)
+			go func() {
+				rctx, rcancel := context.WithTimeout(context.Background(), time.Duration(3*ttl)*time.Microsecond+2*time.Second)
+				defer rcancel()
+				racq <- holder.locker.LockWithCtx(rctx)
+			}()
+			time.Sleep(5 * time.Millisecond) // the acquisition is past its local phase, its Create is held back
+			close(holder.fac.casGo)          // the old renewal reaches the store (record gone: ErrNotExist)
+			time.Sleep(10 * time.Millisecond)
+			close(holder.fac.createGo)
+		}
 		if err := <-racq; err != nil {
 			s.log(map[string]any{"e": "reacqfail", "p": 1})
 		} else {
@@ -735,6 +746,8 @@ func driveLease(opt *Options) error {
 	case "stale": // C04 under real leases: a renewal of a finished tenure must leave nothing behind
 		for _, ttl := range ttls {
 			scs = append(scs, leaseScenario{Kind: "stalecas", TTL: ttl})
+			scs = append(scs, leaseScenario{Kind: "stalecas", TTL: ttl, Phase: 1})
+			scs = append(scs, leaseScenario{Kind: "unlockmid", TTL: ttl})
 			scs = append(scs, leaseScenario{Kind: "stalecas", TTL: ttl, Pair: true, FaultAt: 1, Fault: "lost"})
 			for ph := 0; ph < 8; ph += 2 {
 				scs = append(scs, leaseScenario{Kind: "unlockrace", TTL: ttl, Periods: 2, Phase: ph})
@@ -771,6 +784,7 @@ func driveLease(opt *Options) error {
 				scs = append(scs, leaseScenario{Kind: "hold", TTL: ttl, Periods: 5, FaultAt: k, Fault: "lost", Pair: true})
 			}
 			scs = append(scs, leaseScenario{Kind: "stalecas", TTL: ttl})
+			scs = append(scs, leaseScenario{Kind: "stalecas", TTL: ttl, Phase: 1})
 			scs = append(scs, leaseScenario{Kind: "stalecas", TTL: ttl, Pair: true, FaultAt: 1, Fault: "lost"})
 			scs = append(scs, leaseScenario{Kind: "hold", TTL: ttl, Periods: 4, Mix: 2})
 			scs = append(scs, leaseScenario{Kind: "handoff", TTL: ttl, Phase: 6, Mix: 2})
